@@ -15,6 +15,7 @@ ENTRYBUF_MODEL = [
     Stream('c20.bufm', 6000, 300000, 'model', timeout=1500),
     Stream('c20.curm', 5000, 250000, 'model', timeout=1500),
     Stream('c20.treem', 5000, 250000, 'model', timeout=1500),
+    Stream('c20.linem', 5000, 250000, 'model', timeout=1500),
 ]
 ABBREV_CACHE = [Stream('c20.cache', 400, 40000, 'oracle', timeout=900, exhaustive='every corpus variant x strategies none/Duplicates/All (populated once and twice), abbreviation offsets shared / damaged / invalid')]
 
